@@ -315,9 +315,9 @@ impl ChannelMonitorImpl {
 //@ensures P C05,C10 every-update-step-that-advances-commitment-state-is-classified-as-a-pre-close-update
     r == advances_channel_state(*update),
 //@mutant commitment_secret_still_accepted_after_close
-    |ChannelMonitorUpdateStep::CommitmentSecret { .. }
+    |ChannelMonitorUpdateStep::CommitmentSecret { .. } |ChannelMonitorUpdateStep::RenegotiatedFunding { .. } |ChannelMonitorUpdateStep::RenegotiatedFundingLocked { .. } => is_pre_close_update = true,
 //@with
-    
+    |ChannelMonitorUpdateStep::RenegotiatedFunding { .. } |ChannelMonitorUpdateStep::RenegotiatedFundingLocked { .. } => is_pre_close_update = true, ChannelMonitorUpdateStep::CommitmentSecret { .. } => {},
 //@end
 //@extract lightning/src/chain/channelmonitor.rs :: impl ChannelMonitorImpl :: fn update_monitor
 //@slice R15
